@@ -43,7 +43,9 @@ InstId string_to_inst_id(const char* s, size_t len) noexcept {
     return BaseInst::kIdNone;
   }
 
-  return InstNameUtils::find_instruction(s, len, InstDB::_inst_name_index_table, InstDB::_inst_name_string_table, InstDB::_inst_name_index);
+  // Instruction ids are not sorted by instruction names (general purpose instructions are followed by ASIMD instructions),
+  // so `_inst_name_index` cannot be used to search for the name.
+  return InstNameUtils::find_instruction_sorted(s, len, InstDB::_inst_name_index_table, InstDB::_inst_name_string_table, InstDB::_inst_name_sorted_id_table, InstDB::_inst_name_sorted_id_count);
 }
 #endif // !ASMJIT_NO_TEXT
 
